@@ -26,6 +26,7 @@ pub fn scenario_regime(tier: &str, poor_debt: bool) -> (Life, Bounds) {
         tick_faults: false,
         bystander: false,
         extensions: false,
+        backlog: false,
     };
     let b = if th {
         Bounds { max_depth: 400, wall_cap_s: 1500.0, ..Default::default() }
@@ -86,6 +87,9 @@ pub fn run(tier: &str) -> ! {
     run.add(mcx::explore(&scn2, &b2));
     let (sf, bf) = scenario_tick_faults(tier);
     run.add(mcx::explore(&sf, &bf));
+    // a backlog of early terminations (one partition per processing call) must be worked off
+    let (sk, bk) = crate::c15::scenario_backlog(tier, "C05", Oracles { c05: true, ..Default::default() });
+    run.add(mcx::explore(&sk, &bk));
     // the market side of the tick: settlement / termination / time schedules over deal boundaries
     // (C07's scenario; what matters here is its oracle that every tick, incl. Market.CronTick, succeeds)
     let (sm, mut bm) = crate::c07::scenario(tier);
